@@ -1,1 +1,105 @@
-(* placeholder *)
+(** C04 — a statement sees the latest committed data plus its own transaction's
+    earlier writes, or its transaction is aborted.  Row-level part, on
+    Model/Engine.v: what the lock protocol guarantees for every row a statement
+    actually reads, and - as a machine-checked witness - what it does NOT
+    guarantee for rows reached through an index (finding F-IDX-DIRTY).
+    Statements only. *)
+From Coq Require Import List NArith ZArith Bool Permutation.
+From SDB Require Import Base.Assoc Model.Lock Model.SqlRef Model.Engine Proofs.EngineProofs.
+Import ListNotations.
+Open Scope N_scope.
+
+(** Every rid that occurs in a transaction's write set (inserted, updated,
+    deleted, old or new location of a relocation) is X-locked by that
+    transaction, in every reachable state. *)
+Theorem dirty_rows_x_locked : forall s, ereachable s -> forall t r,
+  In r (rids_of (agetl (wsets s) t)) -> holdsX (lk s) t r.
+Proof. exact dirty_rows_x_locked_lemma. Qed.
+Print Assumptions dirty_rows_x_locked.
+
+(** A read that returns a row returns the current, not delete-marked heap
+    content of that rid, and no OTHER transaction has that rid in its write set:
+    the row is committed data or the reader's own write. *)
+Theorem read_sees_committed_or_own : forall s t rid tp, ereachable s ->
+  snd (estep s (OpRead t rid)) = ERow tp ->
+  aget (rows s) rid = Some (tp, false) /\
+  forall u, u <> t -> ~ In rid (rids_of (agetl (wsets s) u)).
+Proof. exact read_sees_committed_or_own_lemma. Qed.
+Print Assumptions read_sees_committed_or_own.
+
+(** "When this cannot be ensured the statement's transaction is aborted": a
+    read of a rid another transaction has written aborts the reader. *)
+Theorem foreign_dirty_read_aborts : forall s t u rid, ereachable s ->
+  u <> t -> In rid (rids_of (agetl (wsets s) u)) ->
+  snd (estep s (OpRead t rid)) = EAborted.
+Proof. exact foreign_dirty_read_aborts_lemma. Qed.
+Print Assumptions foreign_dirty_read_aborts.
+
+(** An uncommitted DELETE never hides the row from an index scan: the row is
+    still in the heap (delete-marked) and every index still returns its rid for
+    its key, so another transaction's scan reaches it and is aborted by
+    [foreign_dirty_read_aborts]. *)
+Theorem pending_delete_still_indexed : forall s u rid tp c, ereachable s ->
+  In (WDel rid tp) (agetl (wsets s) u) -> In c (icols s) ->
+  aget (rows s) rid = Some (tp, true) /\ In rid (ilookup s c (ecol c tp)).
+Proof. exact pending_delete_still_indexed_lemma. Qed.
+Print Assumptions pending_delete_still_indexed.
+
+(** The wanted statement for index scans,
+      [index_scan_visits_committed_row]:
+      in every reachable state, if transaction u's only pending write is an
+      in-place update of rid from [old] to [new], then for every indexed column c
+      the lookup of the COMMITTED key [ecol c old] still returns rid
+    (so that a reader either sees the committed row or runs into u's X lock),
+    is FALSE: the update executor moves the entry to the new key at execution
+    time.  Finding F-IDX-DIRTY. *)
+Theorem index_scan_misses_committed_row_refuted : ~ index_scan_visits_committed_row.
+Proof. exact index_scan_misses_committed_row_refuted_lemma. Qed.
+Print Assumptions index_scan_misses_committed_row_refuted.
+
+(** The witness in detail: row 10 is committed with key 5 in column 0;
+    transaction 2 updates the key to 7 and has not committed (write set =
+    that single update, before-image key 5).  The index on column 0 has no
+    entry (5, 10) any more: a lookup of key 5 by transaction 3 visits no rid at
+    all - no lock request, no conflict, no abort - and returns nothing, although
+    the latest committed data holds a row with key 5; reading rid 10 directly
+    would have been refused. *)
+Example f_idx_dirty_witness :
+  ereachable dirty_witness /\
+  agetl (wsets dirty_witness) 2 = [WUpd 10 10 [VInt 5; VInt 1] [VInt 7; VInt 1]] /\
+  (let committed := erun [OpInsert 1 10 [VInt 5; VInt 1]; OpCommit 1] (einit [0%nat; 1%nat]) in
+   wsets committed = [] /\ ilookup committed 0 (VInt 5) = [10] /\
+   heap_rids committed 0 (VInt 5) = [10]) /\
+  ilookup dirty_witness 0 (VInt 5) = [] /\
+  cnt (VInt 5, 10) (iget (idx dirty_witness) 0) = 0%nat /\
+  eouts (map (OpRead 3) (ilookup dirty_witness 0 (VInt 5))) dirty_witness = [] /\
+  snd (estep dirty_witness (OpRead 3 10)) = EAborted /\
+  (* the non-indexed-key column is unaffected *)
+  ilookup dirty_witness 1 (VInt 1) = [10].
+Proof.
+  split; [exists [0%nat; 1%nat]; eexists; reflexivity|]. vm_compute. repeat split.
+Qed.
+
+(** What does hold for index scans: the row is visited when the pending update
+    did not change the key of that column. *)
+Theorem index_scan_visits_committed_row_partial :
+  forall s, ereachable s -> forall u rid old new c,
+    agetl (wsets s) u = [WUpd rid rid old new] -> In c (icols s) ->
+    ecol c old = ecol c new ->
+    In rid (ilookup s c (ecol c old)).
+Proof. exact index_scan_visits_committed_row_partial_lemma. Qed.
+Print Assumptions index_scan_visits_committed_row_partial.
+
+(** Non-vacuity of the positive statements: 2 has written rows 10 (update) and
+    12 (insert); 3 can read the untouched committed row 11 and is aborted on 10;
+    2 reads its own writes. *)
+Example c04_nonvacuous :
+  let s := erun [OpInsert 1 10 [VInt 5]; OpInsert 1 11 [VInt 6]; OpCommit 1;
+                 OpUpdate 2 10 [VInt 7]; OpInsert 2 12 [VInt 8]] (einit [0%nat]) in
+  rids_of (agetl (wsets s) 2) = [10; 10; 12] /\
+  snd (estep s (OpRead 3 11)) = ERow [VInt 6] /\
+  snd (estep s (OpRead 3 10)) = EAborted /\
+  snd (estep s (OpRead 3 12)) = EAborted /\
+  snd (estep s (OpRead 2 10)) = ERow [VInt 7] /\
+  snd (estep s (OpRead 2 12)) = ERow [VInt 8].
+Proof. vm_compute. repeat split. Qed.
